@@ -262,6 +262,179 @@ func c17Run(cfg C17Config) (viol []engine.Violation, outcome string, herr string
 	return
 }
 
+// C17Two: one job with two triggers of the same job type, each with its own onError list; the triggers fire one after
+// the other (never overlapping) on the job objects the hub holds. Every run must follow the handlers of the trigger
+// that fired.
+type C17Two struct {
+	B        int    `json:"b"`
+	F        []int  `json:"f"`
+	M        [2]int `json:"m"`     // maxItems of the log handler of trigger 0 / 1; -1 = the trigger has no log handler
+	Order    []int  `json:"order"` // which trigger fires, in this order
+	Pipeline string `json:"pipeline"`
+	Restart  bool   `json:"restart,omitempty"` // the hub is restarted between AddJob and the first firing
+}
+
+func (c C17Two) String() string {
+	return fmt.Sprintf("twoTriggers batch=%d entities=%d rejected=%v maxItems=%v firing=%v pipeline=%s restart=%v", c.B, 2*c.B, c.F, c.M, c.Order, c.Pipeline, c.Restart)
+}
+
+func c17TwoRun(cfg C17Two) (viol []engine.Violation, outcome string, herr string) {
+	jw := jWorld()
+	h := jw.W.NewHist()
+	fail := func(clause, what string) {
+		viol = append(viol, engine.Violation{Key: "C17:two:" + clause + "|" + cfg.String(), What: cfg.String() + ": " + what})
+	}
+	defer func() {
+		if r := recover(); r != nil {
+			fail("harness-panic", fmt.Sprintf("panic: %v", r))
+			jWorkerWorld = nil
+		}
+	}()
+	if err := h.EnsureDatasets("S", "Z"); err != nil {
+		return nil, "", err.Error()
+	}
+	pool := model.Pool(0)
+	n := 2 * cfg.B
+	var ids []string
+	var ents []server.VEnt
+	for i := 0; i < n; i++ {
+		ids = append(ids, fmt.Sprintf("e%d", i))
+		ents = append(ents, server.VEnt{ID: ids[i], C: model.PoolIndex(pool, "v1")})
+	}
+	if err := h.ApplyWrite(server.VOp{K: "batch", DS: "S", Ents: ents}); err != nil {
+		return nil, "", err.Error()
+	}
+	on := func(m int) []map[string]interface{} {
+		if m < 0 {
+			return nil
+		}
+		return []map[string]interface{}{{"errorHandler": "log", "maxItems": m}}
+	}
+	sp := JobSpec{Sources: []string{"S"}, Sink: "Z", JobType: cfg.Pipeline, BatchSize: cfg.B, OnError: on(cfg.M[0]), Same: true, OnError2: on(cfg.M[1]), Live: true}
+	_, jc, err := jw.newJob(h, sp)
+	if err != nil {
+		return nil, "", "newJob: " + err.Error()
+	}
+	if cfg.Restart {
+		jw.Restart()
+	}
+	held := jw.heldJobs(jc.ID)
+	if len(held) != 2 {
+		return nil, "", fmt.Sprintf("the hub's cron holds %d job objects for a job with two triggers", len(held))
+	}
+	F := map[string]bool{}
+	for _, i := range cfg.F {
+		F[ids[i]] = true
+	}
+	sorted := append([]int{}, cfg.F...)
+	sort.Ints(sorted)
+	fs := &failSink{inner: held[0].pipeline.spec().sink, h: h, F: F}
+	recs := [2]*recHandler{}
+	for t, jb := range held {
+		if _, already := jb.pipeline.spec().sink.(*failSink); !already {
+			jb.pipeline.spec().sink = fs
+		}
+		for _, eh := range jb.errorHandlers {
+			if eh.Type == ErrorHandlerLog {
+				if eh.failingEntityHandler == nil {
+					fail("handler-missing", fmt.Sprintf("trigger %d has a log error handler configured but the job object the hub holds carries none", t))
+					return viol, "no-handler", ""
+				}
+				recs[t] = &recHandler{inner: eh.failingEntityHandler, h: h}
+				eh.failingEntityHandler = recs[t]
+			}
+		}
+		if (recs[t] != nil) != (cfg.M[t] >= 0) {
+			return nil, "", fmt.Sprintf("trigger %d: log handler configured=%v attached=%v", t, cfg.M[t] >= 0, recs[t] != nil)
+		}
+	}
+	for k, t := range cfg.Order {
+		fs.delivered, fs.calls = nil, 0
+		fs.rejectedAlone = nil
+		for _, r := range recs {
+			if r != nil {
+				r.reported = nil
+			}
+		}
+		if cfg.Pipeline == "incremental" {
+			_ = jw.Sched.ResetJob(jc.ID, "")
+		}
+		where := fmt.Sprintf("firing %d (trigger %d, maxItems %d)", k+1, t, cfg.M[t])
+		if p := runJob(held[t]); p != "" {
+			fail("run-panics", where+" panics: "+p)
+			return viol, "panic", ""
+		}
+		res := jw.lastResult(jc.ID)
+		delivered := map[string]int{}
+		for _, id := range fs.delivered {
+			delivered[id]++
+		}
+		other := recs[1-t]
+		if other != nil && len(other.reported) > 0 {
+			fail("reported-to-other-trigger", fmt.Sprintf("%s: the handler of the other trigger was handed %v", where, other.reported))
+		}
+		if len(cfg.F) > 0 && res.LastError == "" {
+			fail("outcome-error", where+": entities were rejected but the recorded run result carries no error")
+		}
+		if len(cfg.F) == 0 && res.LastError != "" {
+			fail("outcome-clean", where+": nothing was rejected but the recorded run result carries the error "+res.LastError)
+		}
+		if cfg.M[t] < 0 {
+			// no log handler: the first refused batch ends the run; nothing of it or after it is delivered
+			if len(sorted) > 0 {
+				firstBad := sorted[0] / cfg.B * cfg.B
+				for i, id := range ids {
+					if i >= firstBad && delivered[id] != 0 {
+						fail("plain-delivers-after-failure", fmt.Sprintf("%s: the trigger has no log handler, the batch starting at e%d is refused, yet %s was delivered (delivered=%v)", where, firstBad, id, fs.delivered))
+					}
+					if i < firstBad && delivered[id] != 1 {
+						fail("others-delivered", fmt.Sprintf("%s: entity %s precedes the refused batch but was delivered %d times", where, id, delivered[id]))
+					}
+				}
+			} else {
+				for _, id := range ids {
+					if delivered[id] != 1 {
+						fail("others-delivered", fmt.Sprintf("%s: nothing is rejected but %s was delivered %d times", where, id, delivered[id]))
+					}
+				}
+			}
+			continue
+		}
+		reported := map[string]int{}
+		for _, id := range recs[t].reported {
+			reported[id]++
+		}
+		stopIdx, stopped := n, false
+		if cfg.M[t] > 0 && len(sorted) >= cfg.M[t] {
+			stopIdx, stopped = sorted[cfg.M[t]-1], true
+		}
+		for i, id := range ids {
+			switch {
+			case F[id]:
+				if delivered[id] != 0 {
+					fail("rejected-delivered", where+": rejected entity "+id+" was delivered")
+				}
+				if i <= stopIdx && reported[id] != 1 {
+					fail("reported-once", fmt.Sprintf("%s: rejected entity %s was reported to the trigger's handler %d times (want exactly once); reported=%v", where, id, reported[id], recs[t].reported))
+				}
+				if i > stopIdx && reported[id] > 0 {
+					fail("reported-after-stop", fmt.Sprintf("%s: entity %s was reported although the run had to stop at the %d-th rejection", where, id, cfg.M[t]))
+				}
+			case i < stopIdx:
+				if delivered[id] != 1 {
+					fail("others-delivered", fmt.Sprintf("%s: entity %s is not rejected and lies before the stopping point but was delivered %d times; delivered=%v reported=%v", where, id, delivered[id], fs.delivered, recs[t].reported))
+				}
+			case i > stopIdx && stopped:
+				if delivered[id] != 0 {
+					fail("delivered-after-stop", fmt.Sprintf("%s: entity %s was delivered after the run had to stop at the %d-th rejection (%s)", where, id, cfg.M[t], ids[stopIdx]))
+				}
+			}
+		}
+		outcome += fmt.Sprintf("t%d:delivered=%d reported=%d error=%v ", t, len(fs.delivered), len(recs[t].reported), res.LastError != "")
+	}
+	return
+}
+
 // C17Rerun: one reRun configuration: outcomes of consecutive attempts.
 type C17Rerun struct {
 	MaxRetries int      `json:"max_retries"`
@@ -441,6 +614,7 @@ func init() {
 			var t struct {
 				Log   []C17Config `json:"log"`
 				Rerun []C17Rerun  `json:"rerun"`
+				Two   []C17Two    `json:"two"`
 			}
 			if err := json.Unmarshal(task, &t); err != nil {
 				return c10Out{HarnessEr: err.Error()}
@@ -448,6 +622,15 @@ func init() {
 			var out c10Out
 			for _, c := range t.Log {
 				v, o, herr := c17Run(c)
+				out.Evaluations++
+				out.Viol = append(out.Viol, v...)
+				out.Outcomes = append(out.Outcomes, o)
+				if herr != "" {
+					out.HarnessEr = herr
+				}
+			}
+			for _, c := range t.Two {
+				v, o, herr := c17TwoRun(c)
 				out.Evaluations++
 				out.Viol = append(out.Viol, v...)
 				out.Outcomes = append(out.Outcomes, o)
@@ -487,7 +670,7 @@ func subsets(n int) [][]int {
 func init() {
 	engine.RegisterCheck("C17", func(r *engine.Run) {
 		r.Level = "fault_enumeration"
-		r.Rule = "FAULT ENUM: for every batch size b up to the bound the source holds two batches (2b entities) and EVERY subset of them is rejected (plus long runs of 12-40 batches with one rejected entity each, so that the number of bisections in one run exceeds 32) by a sink double (permanently), for every maxItems in 0..3 and both pipelines, plus transient sink failures (first r calls); real job, real wrappedSink / log handler / result recording; oracle: all other entities before the stopping point delivered exactly once, each rejected entity reported exactly once, nothing delivered or reported after the maxItems-th rejection, recorded outcome carries an error iff something was rejected. reRun: every maxRetries in 0..3 x every sequence of attempt outcomes {fail, ok, kill} up to length 4 (incremental; length 3 for fullsync jobs), timers owned by the controlled scheduler; oracle: run count, configured delay, no re-run after success or kill. distinct = distinct outcome digests"
+		r.Rule = "FAULT ENUM: for every batch size b up to the bound the source holds two batches (2b entities) and EVERY subset of them is rejected (plus long runs of 12-40 batches with one rejected entity each, so that the number of bisections in one run exceeds 32) by a sink double (permanently), for every maxItems in 0..3 and both pipelines, plus transient sink failures (first r calls); real job, real wrappedSink / log handler / result recording; oracle: all other entities before the stopping point delivered exactly once, each rejected entity reported exactly once, nothing delivered or reported after the maxItems-th rejection, recorded outcome carries an error iff something was rejected. reRun: every maxRetries in 0..3 x every sequence of attempt outcomes {fail, ok, kill} up to length 4 (incremental; length 3 for fullsync jobs), timers owned by the controlled scheduler; oracle: run count, configured delay, no re-run after success or kill. Two triggers of one job type with their own onError lists (log handler with maxItems 0..2, or none; all 15 pairs), fired in 4 orders on the job objects the hub's cron holds (also after a restart), every subset of 2 or 4 entities rejected: each firing follows the handlers of the trigger that fired. distinct = distinct outcome digests"
 		r.Assumptions = []string{"the sink double rejects whole calls, as a real sink does", "timers fire only when the controlled scheduler lets them (logical time)"}
 		maxB := 5
 		if !r.Quick() {
@@ -586,7 +769,36 @@ func init() {
 				}
 			}
 		}
+		// two triggers of one job type, each with its own handlers, firing one after the other on the hub's own objects
+		var two []C17Two
+		for _, pl := range []string{"incremental", "fullsync"} {
+			for b := 1; b <= 2; b++ {
+				for _, f := range subsets(2 * b) {
+					for m0 := -1; m0 <= 2; m0++ {
+						for m1 := -1; m1 <= 2; m1++ {
+							if m0 < 0 && m1 < 0 {
+								continue
+							}
+							for _, ord := range [][]int{{0, 1}, {1, 0}, {0, 1, 0}, {1, 0, 1}} {
+								two = append(two, C17Two{B: b, F: f, M: [2]int{m0, m1}, Order: ord, Pipeline: pl})
+								if b == 1 && len(ord) == 2 {
+									two = append(two, C17Two{B: b, F: f, M: [2]int{m0, m1}, Order: ord, Pipeline: pl, Restart: true})
+								}
+							}
+						}
+					}
+				}
+			}
+		}
 		var tasks []json.RawMessage
+		for i := 0; i < len(two); i += 40 {
+			e := i + 40
+			if e > len(two) {
+				e = len(two)
+			}
+			b, _ := json.Marshal(map[string]interface{}{"two": two[i:e]})
+			tasks = append(tasks, b)
+		}
 		for i := 0; i < len(logCfgs); i += 60 {
 			e := i + 60
 			if e > len(logCfgs) {
@@ -631,7 +843,8 @@ func init() {
 		r.Evaluations += evals
 		r.AddSample(map[string]interface{}{"log_handler_configuration": logCfgs[len(logCfgs)/2]})
 		r.AddSample(map[string]interface{}{"rerun_configuration": rerun[len(rerun)/2]})
-		r.AddPart(map[string]interface{}{"engine": "ENUM/FAULT", "name": "c17", "log_configurations": len(logCfgs), "rerun_configurations": len(rerun), "evaluated": evals, "max_batch": maxB, "wall_s": time.Since(start).Seconds()})
+		r.AddSample(map[string]interface{}{"two_trigger_configuration": two[len(two)/2]})
+		r.AddPart(map[string]interface{}{"engine": "ENUM/FAULT", "name": "c17", "log_configurations": len(logCfgs), "rerun_configurations": len(rerun), "two_trigger_configurations": len(two), "evaluated": evals, "max_batch": maxB, "wall_s": time.Since(start).Seconds()})
 		fmt.Fprintf(os_stderr(), "[c17] %d log-handler configurations, %d reRun configurations, %d evaluated (%.1fs)\n", len(logCfgs), len(rerun), evals, time.Since(start).Seconds())
 	})
 }
